@@ -1,13 +1,46 @@
 From Coq Require Import NArith.
 From Stam Require Import Base.Tac Model.Offset Model.Utf8 Model.Store Model.Validate
-     Spec.ValidateSpec Proofs.ValidateJoin Props.C18.
+     Spec.StoreSpec Spec.ValidateSpec Proofs.StoreInv Proofs.StoreSets Proofs.ValidateJoin Proofs.ValidateProtect Props.C18.
 Check (C18_join_determines_pieces : forall d ps qs,
   map (@length N) ps = map (@length N) qs -> text_join d ps = text_join d qs -> ps = qs).
 Check (C18_validate_is_reference_check : forall H txts s a,
   validate_ann H txts s a = by_reference H s a (ann_pieces txts s a)).
+Check (C18_histories_invariants : forall ops, Forall op_ok ops -> W (run ops)).
+Check (C18_protect_total : forall H txts s m, W s -> snd (protect H txts s m) = OOk 0).
+Check (C18_protect_inv : forall H txts s m, W s -> W (fst (protect H txts s m))).
+Check (C18_protect_valid : forall H txts s m, W s ->
+  forall y a0, get_ann s y = Some a0 -> carries_info s a0 = false ->
+  exists a1, get_ann (fst (protect H txts s m)) y = Some a1
+             /\ validate_ann H txts (fst (protect H txts s m)) a1 = demand_protected txts s a0).
+Check (C18_detects : forall H txts txts' s m, W s ->
+  map (@length N) txts = map (@length N) txts' ->
+  forall y a0, get_ann s y = Some a0 -> carries_info s a0 = false ->
+  let d := odflt (ann_vstr s a0 KDEL) in
+  H_inj_on H [text_join d (ann_pieces txts s a0); text_join d (ann_pieces txts' s a0)] ->
+  exists a1, get_ann (fst (protect H txts s m)) y = Some a1
+             /\ validate_ann H txts' (fst (protect H txts s m)) a1 = demand_edited txts txts' s a0).
+Check (C18_detects_text_reference : forall H txts txts' s m, W s ->
+  map (@length N) txts = map (@length N) txts' ->
+  forall y a0, get_ann s y = Some a0 -> carries_info s a0 = false ->
+  snd (mode_flags m (ranges_len (ann_ranges s a0))) = true ->
+  exists a1, get_ann (fst (protect H txts s m)) y = Some a1
+             /\ validate_ann H txts' (fst (protect H txts s m)) a1 = demand_edited txts txts' s a0).
+Check (C18_invalid_iff_differs : forall txts txts' s a,
+  demand_edited txts txts' s a = Some false <-> (selects_text txts s a = true /\ selected txts s a <> selected txts' s a)).
+Print Assumptions C18_reachable_invariants.
+Print Assumptions C18_histories_invariants.
+Print Assumptions C18_protect_total.
+Print Assumptions C18_protect_inv.
+Print Assumptions C18_protect_index_exact.
+Print Assumptions C18_protect_valid.
+Print Assumptions C18_protect_same_slots.
+Print Assumptions C18_detects.
+Print Assumptions C18_detects_text_reference.
+Print Assumptions C18_invalid_iff_differs.
 Print Assumptions C18_join_determines_pieces.
 Print Assumptions C18_validate_is_reference_check.
 Print Assumptions C18_references_validate.
 Print Assumptions C18_references_detect.
 Print Assumptions C18_references_detect_text_mode.
 Print Assumptions C18_code_order_irrelevant.
+Print Assumptions Known_C18_regrouped_witness.
